@@ -1,4 +1,5 @@
 import FmpRpc.Model.Timer
+import FmpRpc.Proofs.TimerLemmas
 /-
   C16 — connect-delay timers (timer part; the connection-level statements
   `dial_not_before_delay` live with the connection model).
@@ -10,23 +11,31 @@ open FmpRpc.Tm
     bit is cleared before the modulus, so the value is never negative -/
 theorem random_in_window (r w : Nat) :
     (0 < w → randomDelay r w < w) ∧ (w = 0 → randomDelay r w = 0) := by
-  sorry
+  unfold randomDelay
+  constructor
+  · intro hw
+    rw [if_neg (by omega)]
+    exact Nat.mod_lt _ hw
+  · intro hw
+    rw [if_pos hw]
 
 def Inv (s : St) : Prop :=
   (∀ o, s.current = some o → o < s.fired.length) ∧
   (∀ d ∈ s.deadlines, d.2 < s.fired.length)
 
 theorem inv_init : Inv {} := by
-  sorry
+  constructor
+  · intro o ho; cases ho
+  · intro d hd; cases hd
 
 theorem inv_apply (s : St) (op : Op) (h : Inv s) : Inv (apply s op) := by
-  sorry
+  exact invT_apply s op h
 
 /-- fired is monotone: no operation un-fires a fire-once (fire is idempotent,
     nothing is closed twice) -/
 theorem fired_monotone (s : St) (op : Op) (o : Nat) (h : s.isFired o = true) (hi : Inv s) :
     (apply s op).isFired o = true := by
-  sorry
+  exact apply_isFired_mono s op o h
 
 /-- **Wait returns only when the current timer has fired, or there is none**:
     the only step into `returned` is taken in a state where the fire-once the
@@ -34,32 +43,87 @@ theorem fired_monotone (s : St) (op : Op) (o : Nat) (h : s.isFired o = true) (hi
     none). -/
 theorem wait_returns_only_when_current_fired (s : St) (pc : WPc) (h : waitStep s pc = some .returned) :
     s.current = none ∨ ∃ o, s.current = some o ∧ pc = .recheck (some o) := by
-  sorry
+  cases pc with
+  | get =>
+    simp only [waitStep] at h
+    split at h
+    · left; assumption
+    · cases h
+  | blocked f =>
+    cases f with
+    | none => simp [waitStep] at h
+    | some o =>
+      simp only [waitStep] at h
+      split at h <;> cases h
+  | recheck f =>
+    simp only [waitStep] at h
+    split at h
+    · rename_i hc
+      cases f with
+      | none => left; exact hc
+      | some o => right; exact ⟨o, hc, rfl⟩
+    · cases h
+  | returned => simp [waitStep] at h
 
 /-- a waiter reaches `recheck (some o)` only after `o` has fired -/
 theorem recheck_means_fired (s : St) (o : Nat) (h : waitStep s (.blocked (some o)) = some (.recheck (some o))) :
     s.isFired o = true := by
-  sorry
+  simp only [waitStep] at h
+  split at h
+  · assumption
+  · cases h
 
 /-- **No deadlock**: a waiter is blocked only on an unfired fire-once; once
     that one has fired (naturally or by FireNow / a restart) it has a step. -/
 theorem wait_not_blocked (s : St) (pc : WPc) (hp : pc ≠ .returned) :
     waitStep s pc = none ↔ ∃ o, pc = .blocked (some o) ∧ s.isFired o = false := by
-  sorry
+  cases pc with
+  | get =>
+    simp only [waitStep]
+    constructor
+    · intro h; split at h <;> cases h
+    · rintro ⟨o, ho, _⟩; cases ho
+  | blocked f =>
+    cases f with
+    | none =>
+      simp only [waitStep]
+      constructor
+      · intro h; cases h
+      · rintro ⟨o, ho, _⟩; cases ho
+    | some o =>
+      simp only [waitStep]
+      constructor
+      · intro h
+        split at h
+        · cases h
+        · rename_i hf
+          exact ⟨o, rfl, by simpa using hf⟩
+      · rintro ⟨o', ho, hf⟩
+        cases ho
+        simp [hf]
+  | recheck f =>
+    simp only [waitStep]
+    constructor
+    · intro h; split at h <;> cases h
+    · rintro ⟨o, ho, _⟩; cases ho
+  | returned => exact absurd rfl hp
 
 /-- `Wait` returns immediately when no timer is running -/
 theorem wait_immediate_without_timer (s : St) (h : s.current = none) : waitStep s .get = some .returned := by
-  sorry
+  simp [waitStep, h]
 
 /-- starting a timer fires the previous one (waiters re-check and then wait
     for the new one), `FireNow` fires the current one -/
 theorem start_fires_old (s : St) (d o : Nat) (h : s.current = some o) (hi : Inv s) :
     (apply s (.start d)).isFired o = true ∧ (apply s (.start d)).current = some s.fired.length := by
-  sorry
+  constructor
+  · exact fireDue_isFired_mono _ _ (start_fires_old' s d o h (hi.1 o h))
+  · show (fireDue (start s d)).current = _
+    rw [fireDue_current, start_current]
 
 theorem fireNow_fires_current (s : St) (o : Nat) (h : s.current = some o) (hi : Inv s) :
     (apply s .fireNow).isFired o = true ∧ (apply s .fireNow).current = none := by
-  sorry
+  exact ⟨fireNow_fires s o h (hi.1 o h), fireNow_current s⟩
 
 /-- **A timer does not fire before its delay has elapsed** unless it is
     fast-forwarded or replaced: by clock ticks alone a fire-once started at
@@ -67,6 +131,9 @@ theorem fireNow_fires_current (s : St) (o : Nat) (h : s.current = some o) (hi : 
 theorem not_before_delay (s : St) (o t : Nat) (hd : (t, o) ∈ s.deadlines) (hnf : s.isFired o = false)
     (hlt : s.now + 1 < t) (huniq : ∀ d ∈ s.deadlines, d.2 = o → d.1 = t) (hi : Inv s) :
     (apply s .tick).isFired o = false := by
-  sorry
+  apply tick_not_fired s o hnf
+  intro d hd hdo
+  have := huniq d hd hdo
+  omega
 
 end FmpRpc.C16
